@@ -142,6 +142,14 @@ def oracle_bare(c):
     is_aliquot = (c["q"] + "¼") in t.pp_desc
     want = c["clean_qq"] or follows_half
     fails = []
+    # the same object parsed again with the opposite clean_qq must read like a fresh object with that setting
+    other = Tract(text, parse_qq=True, config="" if c["clean_qq"] else "clean_qq")
+    t.parse(clean_qq=not c["clean_qq"])
+    if (t.pp_desc, list(t.lots), list(t.qqs)) != (other.pp_desc, list(other.lots), list(other.qqs)):
+        fails.append(Failure("bare_quarter_after_toggle", f"{text!r}: created with clean_qq={c['clean_qq']}, then parse(clean_qq={not c['clean_qq']}) gives {t.pp_desc!r} {t.qqs}, a fresh Tract gives {other.pp_desc!r} {other.qqs}",
+                             text=text))
+    t.parse(clean_qq=c["clean_qq"])
+    is_aliquot = (c["q"] + "¼") in t.pp_desc
     if is_aliquot != want:
         fails.append(Failure("bare_quarter", f"{text!r} [clean_qq={c['clean_qq']}]: bare {q!r} treated as aliquot={is_aliquot}, expected {want} (pp_desc {t.pp_desc!r})",
                              text=text, pp_desc=t.pp_desc))
